@@ -79,6 +79,68 @@ def param_name(v):
     return x[2] if x[0] == 'param' else None
 
 
+def filter_skips_collapsed(ctx, rep, p):
+    """True when the ring loop of this path iterates `lines(contour_or_hole).filter(closure)` and the closure is exactly
+    `line.start != line.end` (trusting std::iter::Filter to yield the items the closure accepts)"""
+    nxt = [e for e in p.calls() if e['callee'].endswith('::next')]
+    if not nxt or not all('Filter<' in e['callee'] for e in nxt):
+        return False
+    fl = [e for e in p.calls() if e['callee'].endswith('::filter') and 'Iterator' in e['callee'] and len(e['args']) == 2]
+    if len(fl) != 1:
+        return False
+    recv_ok = any(x[0] in ('call', 'pcall') and x[1].endswith('::lines') and x[2] and param_name(x[2][0]) == 'contour_or_hole'
+                  for x in sym.walk(fl[0]['args'][0]))
+    c = strip_upd(fl[0]['args'][1])
+    if not recv_ok or c[0] != 'agg' or c[1] != 'closure' or c[2] not in ctx.facts().bodies:
+        return False
+    try:
+        cb, cps = ctx.paths(c[2])
+    except sym.CannotAnalyse:
+        return False
+    rep.analysed.add(c[2])
+
+    def own_point(v):
+        x = strip_upd(v)
+        if x[0] == 'field' and x[2] in ('start', 'end'):
+            y = strip_upd(x[1])
+            while y[0] in ('deref', 'refval') and len(y) > 1:
+                y = strip_upd(y[1])
+            if y[0] == 'param' and y[1] == 2:
+                return x[2]
+        return None
+
+    def collapsed_atom(x):
+        """+1 when x is start == end, -1 when start != end, of the closure's own argument"""
+        x = strip_upd(x)
+        if x[0] == 'op' and x[1] in ('eq', 'ne') and len(x) == 4 and {own_point(x[2]), own_point(x[3])} == {'start', 'end'}:
+            return 1 if x[1] == 'eq' else -1
+        if x[0] == 'op' and x[1] == 'not':
+            return -collapsed_atom(x[2])
+        return 0
+
+    rows = []
+    for cp in cps:
+        if cp.end != 'return':
+            continue
+        collapsed = None
+        for (v, cnd) in cp.conds:
+            a = collapsed_atom(v)
+            if a == 0:
+                return False
+            collapsed = bool(cnd[1]) if a > 0 else (not cnd[1])
+        r = strip_upd(sym.simplify(sym.subst(cp.ret, cp.conds)))
+        if sym.is_const(r):
+            if collapsed is None:
+                return False
+            rows.append((collapsed, bool(r[1])))
+        else:
+            a = collapsed_atom(r)
+            if a == 0 or collapsed is not None:
+                return False
+            rows += [(True, a > 0), (False, a < 0)]
+    return bool(rows) and all(accept == (not collapsed) for (collapsed, accept) in rows) and {c_ for c_, _ in rows} == {True, False}
+
+
 # ------------------------------------------------------------------------------- process_polygon
 
 def check_process_polygon(ctx, rep, rules=('S-fill', 'W-left', 'W-collapsed', 'W-iter', 'B-acc')):
@@ -102,6 +164,8 @@ def check_process_polygon(ctx, rep, rules=('S-fill', 'W-left', 'W-collapsed', 'W
                 conds['collapsed'] = c[1]
             elif x[0] == 'op' and x[1] in ('lt', 'gt'):
                 conds['order'] = (x[1], x[2], x[3], c[1])
+        if 'collapsed' not in conds and filter_skips_collapsed(ctx, rep, p):
+            conds['collapsed'] = False
         evs = new_events(p)
         pushes = [e for e in p.calls('push') if 'BinaryHeap' in e['callee']]
         stores = [e for e in p.events if e['k'] == 'store']
